@@ -15,6 +15,22 @@ the invariant. Every divisor is proved non-zero from the parameter ranges (`*_di
 namespace OW.Props.C10
 open OW OW.Kernels
 
+/-- a two-day series used by the non-vacuity examples: a wet day with PET, then a dry day -/
+def demoSeries : List (ℝ × ℝ) := [(10, 2), (0, 3)]
+
+theorem demoSeries_nonneg : ∀ x ∈ demoSeries, 0 ≤ x.1 ∧ 0 ≤ x.2 := by
+  intro x hx
+  simp only [demoSeries, List.mem_cons, List.not_mem_nil, or_false] at hx
+  rcases hx with rfl | rfl <;> norm_num
+
+/-- the same rainfall with zero PET (GR4J closed balance) -/
+def demoSeriesNoPet : List (ℝ × ℝ) := [(10, 0), (0, 0), (25, 0)]
+
+theorem demoSeriesNoPet_ok : ∀ x ∈ demoSeriesNoPet, 0 ≤ x.1 ∧ x.2 = 0 := by
+  intro x hx
+  simp only [demoSeriesNoPet, List.mem_cons, List.not_mem_nil, or_false] at hx
+  rcases hx with rfl | rfl | rfl <;> norm_num
+
 /-! ## RunoffCoefficient -/
 
 /-- the only reported component is the total: runoff_t = coeff · rain_t (any coeff) -/
@@ -101,6 +117,11 @@ example : RR.Surm.ParamsOk ⟨0.3, 120, 0.05, 0.4, 0.1, 0.5, 150, 3, 2⟩ ∧
   refine ⟨by constructor <;> norm_num, ?_⟩
   unfold RR.Surm.Inv; norm_num
 
+/-- the hypotheses of the SURM theorems are met by a concrete non-trivial run (rain on day 1, both prefixes) -/
+example : (((Surm.run ⟨0.3, 120, 0.05, 0.4, 0.1, 0.5, 150, 3, 2⟩ ⟨0, 0, 0⟩ demoSeries).2.take 2).map (·.runoff)).sum ≤
+    ((demoSeries.take 2).map (·.1)).sum + RR.Surm.stor ⟨0.3, 120, 0.05, 0.4, 0.1, 0.5, 150, 3, 2⟩ ⟨0, 0, 0⟩ :=
+  surm_no_water_created _ (by constructor <;> norm_num) _ (by unfold RR.Surm.Inv; norm_num) _ demoSeries_nonneg 2
+
 /-! ## SIMHYD -/
 
 theorem simhyd_components_sum (p : Simhyd.Params ℝ) (s : Simhyd.State ℝ) (xs : List (ℝ × ℝ)) :
@@ -161,6 +182,13 @@ example : RR.Simhyd.ParamsOk ⟨0.3, 1, 200, 3, 0.1, 0.9, 1.5, 0.2, 320⟩ ∧
     RR.Simhyd.Inv ⟨0.3, 1, 200, 3, 0.1, 0.9, 1.5, 0.2, 320⟩ ⟨0, 0, 0⟩ := by
   refine ⟨by constructor <;> norm_num, ?_⟩
   unfold RR.Simhyd.Inv; norm_num
+
+example : ((Simhyd.run ⟨0.3, 1, 200, 3, 0.1, 0.9, 1.5, 0.2, 320⟩ ⟨0, 0, 0⟩ demoSeries).2.map
+      (fun o => o.runoff + o.aet)).sum +
+      RR.Simhyd.stor ⟨0.3, 1, 200, 3, 0.1, 0.9, 1.5, 0.2, 320⟩
+        (Simhyd.run ⟨0.3, 1, 200, 3, 0.1, 0.9, 1.5, 0.2, 320⟩ ⟨0, 0, 0⟩ demoSeries).1 =
+    (demoSeries.map (·.1)).sum + RR.Simhyd.stor ⟨0.3, 1, 200, 3, 0.1, 0.9, 1.5, 0.2, 320⟩ ⟨0, 0, 0⟩ :=
+  simhyd_balance _ (by constructor <;> norm_num) _ (by unfold RR.Simhyd.Inv; norm_num) _ demoSeries_nonneg
 
 /-! ## GR4J -/
 
@@ -251,6 +279,20 @@ example : RR.GR4J.ParamsOk 350 90 1.7 ∧ RR.GR4J.Inv 350 90 1.7 (GR4J.initState
   have hp : RR.GR4J.ParamsOk 350 90 1.7 := by constructor <;> norm_num
   exact ⟨hp, (RR.GR4J.init_inv 350 90 1.7 hp).1, (RR.GR4J.init_inv 350 90 1.7 hp).2,
     RR.GR4J.init_n1 1.7 (by norm_num)⟩
+
+/-- the GR4J theorems applied to a concrete run from the model's own initial state: losing catchment (x2 = −1)
+for the budget, x2 = 0 and zero PET for the closed balance -/
+example : (((GR4J.run 350 (-1) 90 1.7 ⌈(1.7 : ℝ)⌉₊ ⌈2 * (1.7 : ℝ)⌉₊ (GR4J.initState (1.7 : ℝ)).1 demoSeries).2.take 1).map
+      (·.runoff)).sum ≤ ((demoSeries.take 1).map (·.1)).sum + RR.GR4J.stor (GR4J.initState (1.7 : ℝ)).1 :=
+  gr4j_no_water_created 350 (-1) 90 1.7 (by constructor <;> norm_num) (by norm_num) _
+    (RR.GR4J.init_inv 350 90 1.7 (by constructor <;> norm_num)).1 _ demoSeries_nonneg 1
+
+example : (demoSeriesNoPet.map (·.1)).sum =
+    ((GR4J.run 350 0 90 1.7 ⌈(1.7 : ℝ)⌉₊ ⌈2 * (1.7 : ℝ)⌉₊ (GR4J.initState (1.7 : ℝ)).1 demoSeriesNoPet).2.map (·.runoff)).sum +
+      (RR.GR4J.stor (GR4J.run 350 0 90 1.7 ⌈(1.7 : ℝ)⌉₊ ⌈2 * (1.7 : ℝ)⌉₊ (GR4J.initState (1.7 : ℝ)).1 demoSeriesNoPet).1 -
+        RR.GR4J.stor (GR4J.initState (1.7 : ℝ)).1) :=
+  gr4j_closed_balance 350 90 1.7 (by constructor <;> norm_num) _
+    (RR.GR4J.init_inv 350 90 1.7 (by constructor <;> norm_num)).1 _ demoSeriesNoPet_ok
 
 /-! ## Sacramento
 
